@@ -146,3 +146,34 @@ package goat
 //@   loop 2 invariant[C12.client_ctx] clientCtx != nil
 //@   ensures[C10.conn_ctx_cancelled_on_exit] done(h.ctx)
 //@   ensures[C10.exit_only_on_error] result != nil
+
+// ---------------------------------------------------------------------------------
+// proxy
+
+//@ objinv[C16.objinv C17.objinv] goat.Proxy : self.clients != nil && self.commands != nil && self.ctx != nil
+//@ chan H.goat.Proxy.commands never_closed
+//@ chan H.goat.proxyClient.toServer never_closed
+//@ chan H.goat.proxyClient.fromServer never_closed
+
+//@ lock goat.Proxy.mutex guards clients
+//@   inv[C16.clients_wellformed C17.clients_wellformed] forall k String :: k in self.clients ==> self.clients[k] != nil && self.clients[k].fromServer != nil && self.clients[k].id == k
+
+//@ func goat.(*Proxy).addOutgoingConnectionLocked
+//@   holds goat.Proxy.mutex
+//@   nopanic[C16.nopanic C17.nopanic]
+//@   makechan 0 tag 0
+//@   ensures[C16.dial_on_demand] result != nil && result.id == id && result.fromServer != nil && id in p.clients && p.clients[id] == result
+//@   ensures[C16.dial_once] ncalls("go:(*github.com/avos-io/goat.proxyClient).connect") == old(ncalls("go:(*github.com/avos-io/goat.proxyClient).connect")) + 1
+
+//@ func goat.(*Proxy).forwardRpc
+//@   nopanic[C17.nopanic C16.nopanic]
+//@   requires rpc != nil
+//@   ensures[C17.reject_bad_source] rpc.Header == nil || old(rpc.Header.Source) != source ==>
+//@     | ncalls("send") == old(ncalls("send")) && ncalls("call:goat.(*Proxy).addOutgoingConnectionLocked") == old(ncalls("call:goat.(*Proxy).addOutgoingConnectionLocked"))
+//@   ensures[C16.forward_at_most_once] ncalls("send") <= old(ncalls("send")) + 1
+//@   atcall[C16.enqueue_unchanged_to_destination] send : arg1 == rpc && bound("client") && client != nil && arg0 == client.fromServer && client.id == destination
+//@   ensures[C16.enqueued] rpc.Header != nil && old(rpc.Header.Source) == source && !(bound("err") && err != nil) ==> ncalls("send") == old(ncalls("send")) + 1
+//@   ensures[C16.route_record_once] rpc.Header != nil && old(rpc.Header.Source) == source && !(bound("err") && err != nil) ==>
+//@     | len(rpc.Header.ProxyRecord) == len(aftercall("rpcIntercepter", rpc.Header.ProxyRecord)) + 1 && rpc.Header.ProxyRecord[len(rpc.Header.ProxyRecord) - 1] == p.id
+//@     | && (forall j Int :: 0 <= j && j < len(aftercall("rpcIntercepter", rpc.Header.ProxyRecord)) ==> rpc.Header.ProxyRecord[j] == aftercall("rpcIntercepter", rpc.Header.ProxyRecord)[j])
+//@   ensures[C16.interceptor_error_drops] bound("err") && err != nil ==> ncalls("send") == old(ncalls("send")) && rpc.Header.ProxyRecord == aftercall("rpcIntercepter", rpc.Header.ProxyRecord)
